@@ -69,9 +69,9 @@ func C14(r *ev.Run) {
 			s = "signed"
 		}
 		r.Violate(ev.Violation{Fingerprint: fmt.Sprintf("C14 %s %s width=%d", s, kind, width),
-			What:       fmt.Sprintf("%s extraction of %d bits at %d from %x", s, width, pos, buf),
-			Case:       c14Case{ev.FullHex(buf), pos, width, signed},
-			Expected:   fmt.Sprint(want), Actual: fmt.Sprint(got), ReplayKind: "c14-case"})
+			What:     fmt.Sprintf("%s extraction of %d bits at %d from %x", s, width, pos, buf),
+			Case:     c14Case{ev.FullHex(buf), pos, width, signed},
+			Expected: fmt.Sprint(want), Actual: fmt.Sprint(got), ReplayKind: "c14-case"})
 	}
 
 	// E1 — complete small buffers.
